@@ -279,7 +279,8 @@ octosql "SELECT * FROM plugins.plugins"`,
 		}
 		var physicalLimitExpression *physical.Expression
 		if outputOptions.Limit != nil {
-			physicalExpr, err := typecheckExpr(ctx, *outputOptions.Limit, env.WithRecordSchema(physicalPlan.Schema), logical.Environment{
+			// The limit is evaluated once, outside of any record: it can't refer to the columns of the result.
+			physicalExpr, err := typecheckExpr(ctx, *outputOptions.Limit, env, logical.Environment{
 				CommonTableExpressions: map[string]logical.CommonTableExpression{},
 				TableValuedFunctions:   tableValuedFunctions,
 				UniqueVariableNames: &logical.VariableMapping{
@@ -358,7 +359,7 @@ octosql "SELECT * FROM plugins.plugins"`,
 				orderByExpressions[i] = execExpr
 			}
 			if physicalLimitExpression != nil {
-				execExpr, err := physicalLimitExpression.Materialize(ctx, env.WithRecordSchema(physicalPlan.Schema))
+				execExpr, err := physicalLimitExpression.Materialize(ctx, env)
 				if err != nil {
 					return fmt.Errorf("couldn't materialize output limit expression with index: %w", err)
 				}
